@@ -1890,7 +1890,7 @@ Definition postF (rest : list (list nat)) (o : foutcome) (s' : ms) : Prop :=
   match rest with
   | [] => o = FO OStop
   | b :: rest' => o = FO (OBatch b) /\ exists gw' rd' a' R', InvC gw' rd' a' R' s' /\ Rest gw' rd' R' s' rest' /\ Act gw' rd' a' s' /\
-                    InvS (m_ny s') gw' rd' s' /\ InvW gw' rd' a' s' /\ InvX gw' rd' s'
+                    InvS (m_ny s') gw' rd' s' /\ InvW gw' rd' a' s' /\ InvX gw' rd' s' /\ PostH gw' rd' s'
   end.
 
 (* _next_data under ANY fault schedule (worker deaths, poll time-outs, arrivals in any order): it hands out exactly the batch that is
@@ -2150,7 +2150,7 @@ Proof.
     + exists 0. exists [o]. split; [lia|]. destruct Hb as [[ws ->]| ->]; (split; [reflexivity|]); right; eexists; (split; [reflexivity|]); left; [left; eexists; reflexivity | right; reflexivity].
     + destruct rest as [|b rest].
       * subst o. exists 0, [FO OStop]. split; [cbn; lia|]. split; [reflexivity|]. right. eexists. split; [reflexivity|]. right. split; reflexivity.
-      * destruct Hpost as [-> (gw' & rd' & a' & R' & H' & HR' & HA' & HS' & HW' & HX')].
+      * destruct Hpost as [-> (gw' & rd' & a' & R' & H' & HR' & HA' & HS' & HW' & HX' & _)].
         destruct (IH rest gw' rd' a' R' s' cr' evs' H' HR' HA' HS' HW' HX') as (k & tail & Hk & Er & Ht).
         exists (S k), tail. split; [cbn; lia|]. split; [cbn [firstn map app]; rewrite Er; reflexivity|].
         destruct Ht as [->|(o & -> & [Hb|[-> ->]])]; [left; reflexivity | right; eexists; split; [reflexivity | left; exact Hb] | right; eexists; split; [reflexivity | right; split; reflexivity]].
